@@ -422,6 +422,12 @@ class Program:
         from . import inline as _inline
 
         self.inlined = _inline.apply(self, Body, strip_generics)
+        try:
+            from rules import guards as _guards
+
+            _guards.PROGRAM = self
+        except Exception:
+            pass
 
     # -- lookup helpers
     def find(self, pattern, exactly_one=False):
